@@ -409,6 +409,7 @@ func finish(r *report.Run, us []*unit, results []*unitResult, deaths []deathRec,
 	r.Set("fetcher_sequences_executed", casesKind["txpool/fetcher"])
 	r.Set("fetcher_states_expanded_per_unit_sum", notes["fetcher-distinct-states"])
 	r.Set("fetcher_states_with_a_stale_origin_observed", notes["fetcher-stale-origin-states"])
+	r.Set("fetcher_sequences_with_a_late_request_call", notes["fetcher-sequences-with-a-late-request-call"])
 	r.Set("gossip_routine_runs", notes["gossip-runs"])
 	r.Set("gossip_messages_sent", notes["gossip-messages-sent"])
 	r.Set("cases", cases)
@@ -471,6 +472,7 @@ func finish(r *report.Run, us []*unit, results []*unitResult, deaths []deathRec,
 		for _, st := range []string{"fetcher:waiting", "fetcher:queued", "fetcher:fetching", "fetcher:tx-added", "fetcher:idle"} {
 			r.Require(stages[st] > 0, "the fetcher search never reached stage "+st)
 		}
+		r.Require(notes["fetcher-sequences-with-a-late-request-call"] > 50, "fewer than 50 fetcher sequences released a delayed request call")
 		r.Require(notes["fetcher-distinct-states"] > 500, "the fetcher search expanded fewer than 500 states")
 		r.Require(stages["roundtrip-ok"] >= 24, "fewer than 24 message types went through the encode/decode round trip")
 	}
